@@ -267,3 +267,69 @@ Proof.
 Qed.
 
 End File.
+
+(* ------------------------------------------------------------------ *)
+(* the same theorems with the set of values made explicit: the sub-values of the document and of the literal
+   values of variables that the reading is asked to cover *)
+
+Inductive subvalue (root : pv) : pv -> Prop :=
+| sub_refl : subvalue root root
+| sub_list p l x : subvalue root (PList p l) -> In x l -> subvalue root x
+| sub_map p ks vals k x : subvalue root (PMap p ks vals) -> In (k, x) vals -> subvalue root x.
+
+Definition world (lit_ok : pv -> bool) (doc : pv) (v : pv) : Prop :=
+  exists root, (root = doc \/ lit_ok root = true) /\ subvalue root v.
+
+Section World.
+Variable re : re_oracle.
+Variable conv : conv_oracle.
+Variable lit_ok : pv -> bool.
+Variable prog : rules_file.
+Variable doc : pv.
+
+(* the three conditions on the values of this world *)
+Hypothesis W_wf : forall p ks vals, world lit_ok doc (PMap p ks vals) -> List.length ks = List.length vals.
+Hypothesis W_alias : forall p ks vals c k k', world lit_ok doc (PMap p ks vals) -> conv c k = Some k' -> map_get k vals = None -> map_get k' vals = None.
+Hypothesis W_notin : forall v r, world lit_ok doc v -> nin_ok re v r.
+
+Let G := world lit_ok doc.
+
+Lemma W_list p l x : G (PList p l) -> In x l -> G x.
+Proof. intros (root & Hr & Hs) Hin. exists root. split; [exact Hr|]. eapply sub_list; eassumption. Qed.
+Lemma W_map p ks vals k x : G (PMap p ks vals) -> In (k, x) vals -> G x.
+Proof. intros (root & Hr & Hs) Hin. exists root. split; [exact Hr|]. eapply sub_map; eassumption. Qed.
+Lemma W_doc : G doc.
+Proof. exists doc. split; [now left|constructor]. Qed.
+Lemma W_lit v : lit_ok v = true -> G v.
+Proof. intros H. exists v. split; [now right|constructor]. Qed.
+
+(* C01, Done / SOk and Done / SUndef *)
+Theorem refinement n m st recs s' :
+  nc_prog prog = true ->
+  eval_file re conv prog n doc = Done (st, recs, s') ->
+  match spec_file re lit_ok prog doc m with
+  | SOk (st', table) => st = st' /\ exists rec, recs = [rec] /\ compare_rules table (rule_statuses rec) = None
+  | SUndef => False
+  | SOut => True
+  end.
+Proof.
+  intros Hnc H.
+  pose proof (seval_file_status re conv lit_ok prog doc G W_list W_map W_wf W_alias W_notin W_doc W_lit n m st recs s' Hnc H) as Hst.
+  destruct (spec_file re lit_ok prog doc m) as [[st' table]| |] eqn:Es; [|exact Hst|exact I].
+  exact (seval_refines_spec re conv lit_ok prog doc G W_list W_map W_wf W_alias W_notin W_doc W_lit n m st recs s' st' table Hnc H Es).
+Qed.
+
+(* C01 for the memo-free evaluator, errors included: an evaluation error exactly when the semantics is undefined *)
+Theorem refinement_memo_free k m :
+  match eval_file' re conv prog k doc, spec_file re lit_ok prog doc m with
+  | Done (st, _, _), SOk (st', _) => st = st'
+  | Err _, SOk _ => False
+  | Done _, SUndef => False
+  | _, _ => True
+  end.
+Proof.
+  pose proof (peval_file_refines re conv lit_ok prog doc G W_list W_map W_wf W_alias W_notin W_doc W_lit k m) as R.
+  destruct (eval_file' re conv prog k doc) as [[[st r1] s1]| | | |], (spec_file re lit_ok prog doc m) as [[st' table]| |]; cbn in R; auto.
+Qed.
+
+End World.
